@@ -334,6 +334,31 @@ func drawAxis(r *simrt.Rng, name, kind string, idx int) model.AxisDesc {
 			a.DZCenter = true
 		}
 	}
+	// leftovers of an earlier edit: fields that are valid TOML for the entry but meaningless for its type
+	if r.Chance(0.15) {
+		switch a.Type {
+		case "key":
+			if r.Chance(0.5) {
+				a.CCNeg = ip(r.Range(0, 119))
+			} else {
+				a.ActionNeg = sp("octave_down")
+			}
+			if r.Chance(0.3) {
+				a.CC = ip(r.Range(0, 119))
+			}
+		case "cc":
+			if r.Chance(0.5) {
+				a.NoteNeg = ip(r.Range(0, 127))
+			} else {
+				a.ActionNeg = sp("panic")
+			}
+		case "pitch_bend":
+			a.CCNeg = ip(r.Range(0, 119))
+			if r.Chance(0.5) {
+				a.NoteNeg = ip(r.Range(0, 127))
+			}
+		}
+	}
 	return a
 }
 
